@@ -79,7 +79,12 @@ def gen_cases(rng, tier):
     for is_fd in (True, False):
         cases.append({"is_fd": is_fd, "pre": [{"arg": "a.bas", "content": {"hex": "41"}}], "verbose": is_fd,
                       "batch": [{"arg": "new/a.bas", "content": {"hex": "4242"}}, {"arg": "c.dat", "content": {"hex": "43"}}, {"arg": "new/C.DAT", "content": {"hex": "4444"}}]})
-    return cases, {"random": n, "fixed": 8}
+    # exactly 112 files fill the catalogue of side 0 while blocks remain: the next, multi-block, file is refused there and stored on side 1; nothing of it stays on side 0
+    tiny112 = [{"arg": "bt%03d.d" % k, "content": {"hex": "2a"}} for k in range(112)]
+    for is_fd in (True, False):
+        cases.append({"is_fd": is_fd, "pre": None, "verbose": False, "batch": tiny112 + [{"arg": "bbig.bin", "content": {"rand": 31, "len": 10240}}, {"arg": "blast.txt", "content": {"hex": "4c"}}]})
+        cases.append({"is_fd": is_fd, "pre": tiny112, "verbose": is_fd, "batch": [{"arg": "bbig.bin", "content": {"rand": 32, "len": 4081}}, {"eos": "--eos"}, {"arg": "blast.txt", "content": {"hex": "4c"}}]})
+    return cases, {"random": n, "fixed": 12}
 
 
 def sections(text):
